@@ -399,10 +399,15 @@ impl Parser {
         } else { false }
     }
 
+    fn is_platform_constant(&self, lexeme: &Vec<char>) -> bool {
+        let var_name: String = lexeme.iter().collect();
+        var_name == "_প্ল্যাটফর্ম"
+    }
+
     fn prepend_with_import_name(&self, tokens: &mut Vec<Token>, prepend: Vec<char>) {
         for token in tokens.iter_mut() {
             if token.kind == TokenKind::Identifier {
-                if self.built_in_functions.is_built_in(&token.lexeme) {
+                if self.built_in_functions.is_built_in(&token.lexeme) || self.is_platform_constant(&token.lexeme) {
                     continue;
                 }
                 let mut i = 0;
